@@ -203,7 +203,7 @@ pub struct Unsup {
 }
 
 pub fn run(ctx: &mut Ctx) {
-    ctx.rule("agree: archives from the crate's writer (no encryption; incl. large_file, extra data, aligned) and contiguous archives from the independent builder with sizes in the local headers, read front-to-back from a non-seekable short-read stream with a per-entry consumption pattern from {0,1,k,all-1,all,half,random}; the sequence (name,size,method,timestamp,crc,content prefix) must equal the seekable reader's, then end-of-entries; the visitor must deliver visit_file per entry in order and then the central metadata once per entry in order. unsupported: an encrypted or data-descriptor entry at a generated position must yield an error, never data. Non-trivial = >=2 entries and at least one entry not fully consumed.");
+    ctx.rule("agree: archives from the crate's writer (no encryption; incl. large_file, extra data, aligned) and contiguous archives from the independent builder with sizes in the local headers, read front-to-back from a non-seekable short-read stream with a per-entry consumption pattern from {0,1,k,all-1,all,half,random}; the sequence (name,size,method,timestamp,crc,content prefix) must equal the seekable reader's, then end-of-entries; the visitor must deliver visit_file per entry in order and then the central metadata once per entry in order. counts: crate-written archives with 65535/65536 (thorough: ..70000) entries through both streaming APIs. unsupported: an encrypted or data-descriptor entry at a generated position must yield an error, never data. Non-trivial = >=2 entries and at least one entry not fully consumed.");
     let n = ctx.q(8000, 100000);
     let maxc = ctx.q(40000, 400000);
     ctx.explore::<Case>(
@@ -235,6 +235,23 @@ pub fn run(ctx: &mut Ctx) {
             }
         },
     );
+    // entry counts around the 16-bit limit: from 65536 entries on the writer emits ZIP64 end records
+    // behind the central directory; the stream must still list every entry and end cleanly, and the
+    // visitor must deliver exactly one metadata record per entry
+    let counts: Vec<u32> = ctx.q(vec![65535, 65536], vec![65534, 65535, 65536, 65537, 70000]);
+    ctx.enumerate::<u32>("counts", counts.len() as u64, &|i| counts[i as usize], &|&cnt: &u32, info: &mut Info| {
+        info.nontrivial = true;
+        info.label(if cnt > 65535 { "zip64-count" } else { "classic-count" });
+        let ops: Vec<gen::Op> = (0..cnt)
+            .map(|i| gen::Op::File { name: format!("e{i}"), opts: gen::Opts::plain(if i % 5000 == 3 { gen::Method::Deflated } else { gen::Method::Stored }), chunks: if i % 5000 == 3 { vec![Content::Text { seed: i as u64, len: 300 }] } else { vec![] } })
+            .collect();
+        let c = Case { arc: Arc::Written(Program { ops }), consume: vec![4, 0, 1], k: 3, schedule: vec![] };
+        match catch(|| check(&c, info)) {
+            Ok(Ok(())) => Verdict::Pass,
+            Ok(Err(m)) => Verdict::Fail(format!("{cnt} entries: {m}")),
+            Err(p) => Verdict::Fail(format!("PANIC: {p}")),
+        }
+    });
     let n = ctx.q(3000, 30000);
     ctx.explore::<Unsup>(
         "unsupported",
